@@ -87,7 +87,7 @@ func init() {
 			Rule{Name: "E15.self", Run: runSelfCompare}, Rule{Name: "E15.collect", Run: runCollectAll}, Rule{Name: "E15.parallel", Run: runParallelIndex},
 			Rule{Name: "E15.stale", Run: runStaleElementState}, Rule{Name: "E15.siblings", Run: runSiblingChildCons}, Rule{Name: "E15.copy0", Run: runZeroLenCopy},
 			Rule{Name: "E15.case", Run: runAsymmetricNormalisation}, Rule{Name: "E14.params", Run: runParamPermutation}, Rule{Name: "E16.lost", Run: runLostUpdate}, Rule{Name: "E16.dead", Run: runDeadStore},
-			Rule{Name: "E15.flag", Run: runSearchFlagReset}, Rule{Name: "E15.ctx", Run: runCtxLeak}, Rule{Name: "E15.record", Run: runRecordThenReject}, Rule{Name: "E16.premature", Run: runPrematureUse}, Rule{Name: "E15.convdir", Run: runConversionDirection}, Rule{Name: "E15.convsrc", Run: runConversionSourceSiblings}, Rule{Name: "E15.resumed", Run: runResumedSearch}, Rule{Name: "E15.singlepass", Run: runSinglePassLoop}, Rule{Name: "E11.pathid", Run: runPathIdentity}, Rule{Name: "E11.lookupblock", Run: runLookupBlockComplete}, Rule{Name: "E15.accum", Run: runCarriedAccumulator}, Rule{Name: "E15.sizedmake", Run: runAppendAfterSizedMake}, Rule{Name: "E15.dedup", Run: runPartialKeyDedup}, Rule{Name: "E16.flags", Run: runFlagOverwrite}, Rule{Name: "E14.results", Run: runResultPosition})
+			Rule{Name: "E15.flag", Run: runSearchFlagReset}, Rule{Name: "E15.ctx", Run: runCtxLeak}, Rule{Name: "E15.record", Run: runRecordThenReject}, Rule{Name: "E16.premature", Run: runPrematureUse}, Rule{Name: "E15.convdir", Run: runConversionDirection}, Rule{Name: "E15.convsrc", Run: runConversionSourceSiblings}, Rule{Name: "E15.resumed", Run: runResumedSearch}, Rule{Name: "E15.singlepass", Run: runSinglePassLoop}, Rule{Name: "E11.pathid", Run: runPathIdentity}, Rule{Name: "E11.lookupblock", Run: runLookupBlockComplete}, Rule{Name: "E15.accum", Run: runCarriedAccumulator}, Rule{Name: "E15.sizedmake", Run: runAppendAfterSizedMake}, Rule{Name: "E15.dedup", Run: runPartialKeyDedup}, Rule{Name: "E16.flags", Run: runFlagOverwrite}, Rule{Name: "E14.results", Run: runResultPosition}, Rule{Name: "E15.double", Run: runDoubleAccumulation}, Rule{Name: "E15.searchmiss", Run: runSearchForwardsMiss})
 	}
 	propRules["C18"] = append(propRules["C18"], Rule{Name: "E2.poskeys", Run: runPosKeys}, Rule{Name: "E15.collect", Run: runCollectAll}, Rule{Name: "E6.more", Run: runE6MoreWithDecoded}, Rule{Name: "E6.trim", Run: runByteTrim}, Rule{Name: "E6.column", Run: runColumnOrder}, Rule{Name: "E8.completion", Run: runCompletionContainment})
 	propRules["C19"] = append(propRules["C19"], Rule{Name: "E11.consumers", Run: runLookupConsumers})
@@ -116,6 +116,7 @@ func init() {
 		propRules[pid] = append(propRules[pid], Rule{Name: "E17.unchecked", Run: runUncheckedResult})
 	}
 	propRules["C14"] = append(propRules["C14"], Rule{Name: "E11.consumers", Run: runLookupConsumers})
+	propRules["C08"] = append(propRules["C08"], Rule{Name: "E8.completion", Run: runCompletionContainment})
 	for _, pid := range []string{"C09", "C10"} {
 		propRules[pid] = append(propRules[pid], Rule{Name: "E6.decoded", Run: runDecodedTextPositions})
 	}
